@@ -26,6 +26,7 @@ def bounds(tier):
     return {"ff/bf": f"all sequences of 1..{6 if q else 7} items over 0..6 (B=6); all sequences of 1..{4 if q else 5} over 1..10 (B=10)",
             "ffd/bfd": f"all multisets of 1..{8 if q else 9} items over 0..6 (B=6) and 1..{7 if q else 8} over 1..10 (B=10)",
             "planted-big": "B=12 and B=101 (letters 1,2,16,17,33,34,50,51,67): every unordered pair of patterns x multiplicities " + ("(18,9),(60,30)" if q else "(18,9),(60,30),(5,100),(150,150)") + ", 6 arrival orders",
+            "count-sweep": f"for every m in 1..{40 if q else 140}: inputs that need exactly m bins (B=10), 6 arrival orders",
             "big": f"B=2**32, letters {{1, 2**31-1, 2**31, 2**31+1, 2**32-1, 2**32}}: all sequences of 1..{4 if q else 5}, multisets of 1..{5 if q else 6}",
             "planted": f"B=12, letters {PLANT_LETTERS}, patterns <=4 parts, m=3..{6 if q else 8} bins, 6 orders, 4 algorithms"}
 
@@ -60,6 +61,8 @@ def tasks(tier):
         ts.append(("seq", ch, 2 ** 32))
     for ch in scopes.chunk_multisets(BL, 1, 5 if q else 6, 200):
         ts.append(("ms", ch, 2 ** 32))
+    for ch in spaces.chunked(((items, m) for items, _, m in scopes.count_sweep_packing(tier)), 12):
+        ts.append(("planted", ch, 10))
     return ts
 
 
